@@ -106,6 +106,27 @@ def coq_case(i, c, tds, imgs):
     return "(%d, %d, %d, %d, [%s], [%s])" % (i, c["W"], c["spl"], c["spr"], cols, obs)
 
 
+def table_div_pairs(tk):
+    """(width attribute of the last table opened in an Outlook block, max-width of the div that follows the block directly)"""
+    out, last, inm, ended = [], None, False, None
+    for t in tk:
+        if t[0] == "MO":
+            inm, last, ended = True, None, None
+        elif t[0] == "ME":
+            inm, ended = False, last
+        elif inm and t[0] == "O" and t[1] == "table":
+            last = dict(t[2]).get("width")
+        elif inm and t[0] == "O" and t[1] not in ("tr", "td"):
+            last = None if t[1] != "table" else last
+        elif not inm:
+            if t[0] == "O" and t[1] == "div" and ended is not None:
+                m = re.search(r"max-width:(\d+)px", dict(t[2]).get("style", ""))
+                if m:
+                    out.append((str(ended), m.group(1)))
+            ended = None
+    return out
+
+
 def tie_skip(c):
     """an exact rounding tie of a non-dyadic percentage: float64 vs exact arithmetic may differ"""
     inner = c["W"] - c["spl"] - c["spr"]
@@ -245,6 +266,48 @@ def run(ck):
                 ck.known("%s: %s" % (kid, known[kid]["what"]))
             else:
                 failing.append(({"scenario": kid, "src": src, "outlook_cells": tds, "images": imgs}, "width flow scenario '%s' violates the box model" % kid))
+    # (3) every Outlook table that directly wraps a div has that div's max-width (sections anywhere: body, wrappers with padding / borders, hero)
+    from checks import emitlib
+    import docgen
+    wdocs = []
+    for _ in range(150 if ck.quick else 3000):
+        wdocs.append(emitlib.gen_doc(ck.rng)[1])
+    for pad in ('padding="20px 30px"', 'border="5px solid #000"', 'padding-left="25px" padding-right="15px"', 'padding="10px" border-left="3px solid red"'):
+        for fw in ("", ' full-width="full-width"'):
+            secs = "".join('<mj-section%s>%s</mj-section>' % (a, COLI) for a in ("", ' padding="0"', ' background-color="#eee"'))
+            wdocs.append('<mjml><mj-body><mj-wrapper %s%s>%s</mj-wrapper></mj-body></mjml>' % (pad, fw, secs))
+    g2 = docgen.Gen(ck.rng, attr_prob=0.2)
+    for _ in range(150 if ck.quick else 3000):
+        wdocs.append(docgen.to_mjml(g2.document()))
+    wres, _ = common.run_jobs(hb, "render", [{"id": i, "src": x} for i, x in enumerate(wdocs)])
+    wt = vlib.model_run(mr, [("lex", (wres.get(i) or {}).get("html", "").encode()) for i in range(len(wdocs))])
+    npairs = 0
+    for i, src in enumerate(wdocs):
+        if not wt[i] or 'width="0' in src:       # zero widths: listed known finding (falls back to 600)
+            continue
+        ck.count("wrap:" + src, "mj-wrapper" in src, tags=["outlook-table-vs-max-width"])
+        for w, mw in table_div_pairs(vlib.parse_toks(wt[i])):
+            npairs += 1
+            if w != mw:
+                failing.append(({"src": src, "outlook_table_width": w, "div_max_width": mw},
+                                "an Outlook table is %spx wide while the div it wraps is limited to %spx" % (w, mw)))
+                break
+    ck.cov["outlook_table_div_pairs"] = npairs
+    # (4) divider: Outlook width = container - left - right padding, shorthand (1, 2, 4 values) overridden by padding-left / padding-right
+    dres = []
+    for sh, (l0, r0) in (("10px", (10, 10)), ("0 25px", (25, 25)), ("0 10px 0 40px", (40, 10)), ("10px 20px 10px 60px", (60, 20)), (None, (25, 25))):
+        for ol in (None, 5, 0):
+            for orr in (None, 0, 30):
+                attrs = ("" if sh is None else ' padding="%s"' % sh) + ("" if ol is None else ' padding-left="%dpx"' % ol) + ("" if orr is None else ' padding-right="%dpx"' % orr)
+                want = 600 - (l0 if ol is None else ol) - (r0 if orr is None else orr)
+                dres.append(('<mjml><mj-body><mj-section padding="0"><mj-column><mj-divider%s/></mj-column></mj-section></mj-body></mjml>' % attrs, want))
+    rr, _ = common.run_jobs(hb, "render", [{"id": i, "src": x} for i, (x, _) in enumerate(dres)])
+    for i, (src, want) in enumerate(dres):
+        h = (rr.get(i) or {}).get("html") or ""
+        m = re.search(r'<table[^>]*role="presentation"[^>]*width="(\d+)px"[^>]*><tr><td style="height:0;line-height:0;">', h)
+        ck.count("divider:" + src, True, tags=["divider-width"])
+        if m and int(m.group(1)) != want:
+            failing.append(({"src": src, "outlook_divider_width": int(m.group(1)), "expected": want}, "the divider's Outlook width is not the column width minus its left and right padding"))
     ck.cov["rule"] = ("generated single-section layouts: body width in 10 values (300..901), section horizontal padding as 1-/2-value shorthand or per-side "
                       "attributes, 1-6 columns (automatic / 11 percentages incl. decimals / pixels), column and image paddings as shorthands, each column "
                       "holding an image without width; observed Outlook cell widths and image widths vs predict_section (vm_compute); box relations inside "
